@@ -216,6 +216,9 @@ def suite():
     for mid, r in sorted(res.items()):
         if r['status'] != 'survived-checks' or mid in done:
             continue
+        if '/profiler/' in index[mid]['file']:
+            done[mid] = 'not run (the pinned suite does not exercise libdr)'
+            continue
         subprocess.call('git checkout -q -- .', shell=True, cwd=wt)
         if subprocess.call(['git', 'apply', os.path.join(OUT, mid + '.diff')], cwd=wt) != 0:
             done[mid] = 'noapply'
